@@ -28,7 +28,7 @@ THEOREMS = [
     "Typedpy.C17.step_input_intact", "Typedpy.C17.convert_result_disjoint", "Typedpy.C17.heap_examples",
     "Typedpy.C17.versioned_deserialize_whole_path", "Typedpy.C17.versioned_deserialize_is_plain",
     "Typedpy.C17.whole_path_example", "Typedpy.C17.convert_fn_error_propagates", "Typedpy.C17.convert_fn_result",
-    "Typedpy.C17.versioned_deserialize_trusted_whole_path", "Typedpy.C17.convert_nonint_version_raises", "Typedpy.C17.deser_nonpositive_raises", "Typedpy.C17.step_contract_precedence_example",
+    "Typedpy.C17.versioned_deserialize_trusted_whole_path", "Typedpy.C17.convert_nonint_version_raises", "Typedpy.C17.deser_nonpositive_raises", "Typedpy.C17.step_contract_precedence_example", "Typedpy.C17.versioned_instance_latest", "Typedpy.C17.versioned_instance_latest_trusted",
 ]
 RULE = ("histories of 0..5 (thorough 0..8) mappings over top-level keys a..e (+ rarely `version`) with Constant, Deleted, "
         "moves (plain and dotted paths, degenerate paths), nested `._mapper` entries (depth <= 2) over sub-documents and "
@@ -53,7 +53,7 @@ ASSUMPTIONS = [
     "a mapping is a Python dict: keys unique per nesting level (`wfMapping`, checked per case); keys of Deleted / move / "
     "FunctionCall entries do not end in '._mapper'; values of '._mapper' keys are dicts",
     "law checks apply to every history (also with entries for `version`) and start versions v >= 1 (a document without `version` "
-    "counts as version 1, as convert_dict treats it); int versions v <= 0 must be rejected (ValueError since typedpy e6a2398; before: findings "
+    "counts as version 1, as convert_dict treats it, and so does `True`); int versions v <= 0 must be rejected (ValueError since typedpy e6a2398; before: findings "
     "invalid-version-accepted:*); non-int versions (bool, str, float, ...) are only corresponded (Python slice / arithmetic semantics are modelled)",
     "key order of documents is modelled (insertion order) but compared order-insensitively, like Python ==",
     "heap-level theorems: user functions obey the capability discipline FnOk (allocate only; return an atom, something new or "
@@ -106,7 +106,9 @@ def judge(case, impl, model):
     doc = S.dec(case["doc"])
     n = len(case["ms"])
     versionless = isinstance(doc, dict) and "version" not in doc
-    ver = 1 if versionless else doc.get("version")
+    raw_ver = None if versionless else doc.get("version")
+    ver = 1 if (versionless or raw_ver is True) else raw_ver      # a bool is an int in Python: `True` is version 1
+    strict_int = versionless or type(raw_ver) is int              # the deserialization theorems speak of int versions
     wf = not any(k in ("version", "version" + S.SUFFIX) for m in case["ms"] for k, _ in m)
     int_version = type(ver) is int
     # until typedpy commit f017e49 version-less documents and histories with an entry for `version` were
@@ -132,7 +134,7 @@ def judge(case, impl, model):
 
     # ---- start versions below 1 (the documentation has versions start at 1; `version` is a PositiveInt field):
     # convert_dict must reject the document (it used to slice the history with a negative index; fixed in e6a2398)
-    if int_version and ver < 1:
+    if (int_version and ver < 1) or raw_ver is False:
         if "ok" in impl["full"]:
             fails.append(("invalid-version-accepted:convert_dict-nonpositive-start-version",
                           f"convert_dict on a document with version {ver} (versions start at 1) applied "
@@ -186,14 +188,15 @@ def judge(case, impl, model):
         if "ok" in full and ver <= n + 1:
             r = S.dec(full["ok"])
             rv = r.get("version", 1) if isinstance(r, dict) else None
-            if not (type(rv) is int and rv == n + 1):
+            rv_ok = (type(rv) is int and rv == n + 1) or (rv is True and n == 0)
+            if not rv_ok:
                 key = {"versionless-document": "version-off-by-one:versionless-document",
                        "mapping-writes-version": "version-clobbered:mapping-writes-version"}.get(region,
                                                                                                 "version-law:wrong-result-version")
                 fails.append((key, f"convert_dict on a version-{ver} document with {n} mappings returned version "
                                    f"{rv!r} (expected {n + 1}): doc={_short(doc)} history={history} result={_short(r)}"))
             lean = (model.get("implLaws") or {}).get("version")
-            if lean is not None and lean != (type(rv) is int and rv == n + 1) and not (versionless and n == 0):
+            if lean is not None and lean != rv_ok and not (versionless and n == 0):
                 msg = msg or f"Lean versionLaw ({lean}) and the Python check disagree on {_short(r)}"
         # (2) composition at every split point
         lean_compose = (model.get("implLaws") or {}).get("compose") or []
@@ -215,7 +218,7 @@ def judge(case, impl, model):
                               f"doc={_short(doc)} history={history}"))
         # (4) Versioned deserialization: old version == converted latest version
         d_old, d_new, d_plain = impl.get("deser_old"), impl.get("deser_new"), impl.get("deser_plain")
-        if d_old is not None and not versionless:
+        if d_old is not None and not versionless and strict_int:
             if d_new is not None and not S.same_deser(d_old, d_new):
                 key = f"deser-inequivalent:{region}" if region else "deser-law:old-version-differs-from-latest"
                 fails.append((key, f"Deserializer(V).deserialize(d, keep_undefined={case.get('keep')}) = {_short(d_old)} "
